@@ -260,15 +260,19 @@ Fixpoint place_all (st : tstate) (l : list item) : result tstate :=
   end.
 
 (** ---------- from ComputedData to rows *)
-Fixpoint sources (asset : str) (period : Z) (gls : list gl) (evf : list (nat * nat)) (lotf : list (option (nat * nat))) : list rowsrc :=
-  match gls, evf, lotf with
-  | g :: gs, e :: es, l :: ls =>
-    {| rs_asset := asset; rs_gl := g; rs_period := period; rs_evfrac := e; rs_lotfrac := l |} :: sources asset period gs es ls
-  | _, _, _ => []
+(** one row source per fraction of the window, in the set's order; the k-th fraction takes the k-th
+    label pair of [cd_evfrac] / [cd_lotfrac] (the three lists have equal lengths by construction in
+    [Computed.compute]; no fraction is dropped here even if they had not) *)
+Fixpoint sources_from (k : nat) (asset : str) (period : Z) (evf : list (nat * nat)) (lotf : list (option (nat * nat)))
+  (gls : list gl) : list rowsrc :=
+  match gls with
+  | [] => []
+  | g :: t => {| rs_asset := asset; rs_gl := g; rs_period := period; rs_evfrac := nth k evf (O, O); rs_lotfrac := nth k lotf None |}
+              :: sources_from (S k) asset period evf lotf t
   end.
 
 Definition asset_sources (i : rinput) (ac : rasset * computed) : list rowsrc :=
-  sources (ra_name (fst ac)) (rp_period i) (cd_gls (snd ac)) (cd_evfrac (snd ac)) (cd_lotfrac (snd ac)).
+  sources_from O (ra_name (fst ac)) (rp_period i) (cd_evfrac (snd ac)) (cd_lotfrac (snd ac)) (cd_gls (snd ac)).
 
 Fixpoint mk_items (l : list rowsrc) : result (list item) :=
   match l with
@@ -333,6 +337,76 @@ Definition tax_report (i : rinput) : result (list sheetw) :=
       end
     end
   end.
+
+(** ---------- vocabulary of the statements (Properties/C14.v) *)
+(** the fraction is routed to sheet [n] *)
+Definition routed (n : str) (it : item) : bool :=
+  match type_to_sheet (it_type it) with Some m => str_eqb m n | None => false end.
+Definition nrouted (n : str) (l : list item) : Z := Z.of_nat (length (filter (routed n) l)).
+
+(** the writes a sheet receives from a list of fractions when its row index starts at [r] *)
+Fixpoint spec_writes (n : str) (r : Z) (l : list item) : list cellw :=
+  match l with
+  | [] => []
+  | it :: t => if routed n it then row_writes r it ++ spec_writes n (r + tt_row_step T) t else spec_writes n r t
+  end.
+
+(** all fractions of the report, asset after asset *)
+Fixpoint all_items (i : rinput) (l : list (rasset * computed)) : result (list item) :=
+  match l with
+  | [] => Ok []
+  | ac :: t => match mk_items (asset_sources i ac), all_items i t with
+               | Ok a, Ok b => Ok (a ++ b)
+               | Err e, _ => Err e
+               | _, Err e => Err e
+               end
+  end.
+
+(** ---------- finite facts about the generated tables, decided by computation *)
+(** types that can be the type of a taxable event: earn-typed acquisitions, every type an out-transaction
+    may have, MOVE for transfers *)
+Definition taxable_types : list ttype :=
+  filter (fun t => (is_earn_type t && in_type_allowed t) || out_type_allowed t || ttype_eqb t MOVE) all_ttypes.
+Definition routing_total : bool :=
+  forallb (fun t => match type_to_sheet t with Some _ => true | None => false end) taxable_types.
+
+Definition data_templates : list trtemplate :=
+  filter (fun tp => negb (str_eqb (tp_name tp) legend_template_name)
+                    && (smem (tp_name tp) keep_names || negb (starts_uu (tp_name tp)))) (tt_template T).
+Definition out_name (tp : trtemplate) : str := if smem (tp_name tp) keep_names then skipn 2 (tp_name tp) else tp_name tp.
+Definition data_sheet_names : list str := map out_name data_templates.
+
+Fixpoint str_nodup (l : list str) : bool := match l with [] => true | x :: t => negb (smem x t) && str_nodup t end.
+Fixpoint z_nodup (l : list Z) : bool := match l with [] => true | x :: t => negb (existsb (Z.eqb x) t) && z_nodup t end.
+
+(** every target of [_TYPE_TO_SHEET] is a sheet of the output file and a key of [row_indexes] *)
+Definition targets_exist : bool :=
+  forallb (fun ty => match type_to_sheet ty with
+                     | Some n => smem n data_sheet_names && smem n (tt_sheet_names T)
+                     | None => true end) all_ttypes.
+(** every sheet of the output file (legend aside) is a key of [_SHEET_TO_TYPES] and of [row_indexes] *)
+Definition kept_are_keys : bool :=
+  forallb (fun n => (match sheet_types n with Some _ => true | None => false end) && smem n (tt_sheet_names T)) data_sheet_names.
+(** no type on two sheets, no sheet listed twice *)
+Definition map_functional : bool :=
+  forallb (fun ty => Nat.leb (length (filter (fun st => ttype_in ty (snd st)) (tt_sheet_to_types T))) 1) all_ttypes
+  && str_nodup (map fst (tt_sheet_to_types T)).
+Definition names_ok : bool :=
+  str_nodup data_sheet_names && negb (smem s_Legend data_sheet_names) && str_nodup (tt_sheet_names T)
+  && existsb (fun tp => str_eqb (tp_name tp) legend_template_name) (tt_template T).
+(** the columns of a row are pairwise distinct and inside every data sheet; rows start below the
+    template's own cells and inside the template; the row index advances by one; a sheet counts as
+    empty exactly when its row index still has the initial value *)
+Definition layout_ok : bool :=
+  z_nodup (map fst (tt_cols_always T ++ tt_cols_lot T)) && z_nodup (map fst (tt_cols_always T ++ tt_cols_nolot T))
+  && forallb (fun tp => forallb (fun cf => (0 <=? fst cf) && (fst cf <? tp_cols tp)) (tt_cols_always T ++ tt_cols_lot T ++ tt_cols_nolot T)
+                        && (tp_cols tp <=? 1024)
+                        && forallb (fun rc => (0 <=? fst rc) && (fst rc <? tt_first_row T) && (0 <=? snd rc) && (snd rc <? tp_cols tp)) (tp_cells tp)
+                        && (tt_first_row T <=? tp_rows tp)) data_templates
+  && (0 <=? tt_first_row T) && (tt_row_step T =? 1) && (tt_empty_mark T =? tt_first_row T).
+Definition tables_ok : bool := targets_exist && kept_are_keys && map_functional && names_ok && layout_ok.
+(** [append_rows] adds at least as many rows as there are fractions of the type *)
+Definition append_ok : Prop := forall c, 0 <= c -> c <= tt_append_rows T (tt_min_rows T) c.
 
 End Report.
 
